@@ -64,7 +64,12 @@ pub fn gen(ctx: &mut Ctx) {
             let mut m3 = simple_make(ctx, rps[0]); m3.exclude = Some(vec![vec![7, 7], id.clone()]); m3.rk = true;
             let mut m4 = simple_make(ctx, rps[0]); m4.exclude = Some(vec![vec![7, 7]]); m4.algs = vec![-257];       // nothing held is named: the algorithm error shows
             let mut m5 = simple_make(ctx, rps[0]); m5.exclude = Some(vec![id.clone()]);
-            run_case(ctx, "C05", &w, &[step(Op::Make(m1)), step(Op::Make(m2)), step(Op::Make(m3)), step(Op::Make(m4)), step(Op::Make(m5))]);
+            // ... whether or not the user is verified
+            let mut m6 = simple_make(ctx, rps[0]); m6.exclude = Some(vec![id.clone()]); m6.uv = false;
+            let mut m7 = simple_make(ctx, rps[0]); m7.exclude = Some((0..9).map(|k| vec![7, k]).chain(std::iter::once(id.clone())).collect()); m7.uv = false;
+            let present_only = UvState { answer: Ok((true, false)), ..UvState::ok() };
+            let (mut s6, mut s7) = (step(Op::Make(m6)), step(Op::Make(m7))); s6.uv = present_only; s7.uv = present_only;
+            run_case(ctx, "C05", &w, &[step(Op::Make(m1)), step(Op::Make(m2)), step(Op::Make(m3)), step(Op::Make(m4)), s6, s7, step(Op::Make(m5))]);
             ctx.stat("c05.corpus.exclusion_and_other_refusals");
         }
     }
@@ -136,13 +141,24 @@ pub fn gen(ctx: &mut Ctx) {
                 5 => { let mut l: Vec<Vec<u8>> = ids.iter().map(|(i, _)| i.clone()).collect(); l.push(rand_id(ctx)); if ctx.rng.bool() { l.reverse(); } Some(l) }
                 _ => if ids.is_empty() { None } else { let k = ctx.rng.below(ids.len() as u64) as usize; Some(vec![ids[k].0.clone()]) }
             };
+            // ... long lists with the one held id late in them; ids that are a prefix / an extension of a held id, and the empty id
+            let list = match (ctx.rng.below(8), ids.is_empty()) {
+                (0, false) => { let k = ctx.rng.below(ids.len() as u64) as usize; let mut l: Vec<Vec<u8>> = (0..ctx.rng.range(8, 20)).map(|_| rand_id(ctx)).collect(); l.push(ids[k].0.clone()); for _ in 0..ctx.rng.below(3) { l.push(rand_id(ctx)); } ctx.stat("c05.list.long"); Some(l) }
+                (1, false) => { let k = ctx.rng.below(ids.len() as u64) as usize; let h = ids[k].0.clone(); let mut ext = h.clone(); ext.push(ctx.rng.next() as u8);
+                    ctx.stat("c05.list.prefix_or_extension_of_a_held_id");
+                    Some(match ctx.rng.below(4) { 0 => vec![h[..h.len() - 1].to_vec()], 1 => vec![ext], 2 => vec![vec![]], _ => vec![h[..1].to_vec(), vec![], ext] }) }
+                _ => list,
+            };
             ctx.stat(match &list { None => "c05.list.absent", Some(l) if l.is_empty() => "c05.list.empty", Some(_) => "c05.list.nonempty" });
             // now and then some descriptors carry a credential type this library does not know
             let unk: Vec<usize> = match &list { Some(l) if !l.is_empty() && ctx.rng.below(5) == 0 => (0..l.len()).filter(|_| ctx.rng.below(3) != 0).collect(), _ => vec![] };
             if !unk.is_empty() { ctx.stat("c05.list.unknown_typed_entries"); }
             if ctx.rng.below(3) == 0 {
-                let mut m = simple_make(ctx, rp); m.exclude = list; m.rk = ctx.rng.bool(); m.unk = unk;
-                steps.push(step(Op::Make(m)));
+                let mut m = simple_make(ctx, rp); m.exclude = list; m.rk = ctx.rng.bool(); m.unk = unk; m.uv = ctx.rng.below(3) != 0;
+                let unverified = !m.uv && ctx.rng.bool();
+                let mut st = step(Op::Make(m));
+                if unverified { st.uv = UvState { answer: Ok((true, false)), ..UvState::ok() }; ctx.stat("c05.make.user_not_verified"); }
+                steps.push(st);
             } else {
                 let mut g = simple_get(ctx, rp); g.allow = list; g.unk = unk;
                 steps.push(step(Op::Get(g)));
